@@ -1,7 +1,7 @@
 (** C12 — a bsdiff series applied to the old file yields the new file.
     Only statements, [exact], and [Print Assumptions]; models in Bsdiff/Scan.v, Patch.v, Lru.v,
     proofs in Bsdiff/ScanProofs.v, RoundtripProofs.v, LruProofs.v. *)
-From Wharf Require Import Base.Prelude Bsdiff.Scan Bsdiff.ScanProofs Bsdiff.Patch Bsdiff.RoundtripProofs.
+From Wharf Require Import Base.Prelude Bsdiff.Scan Bsdiff.ScanProofs Bsdiff.Patch Bsdiff.RoundtripProofs Bsdiff.Lru Bsdiff.LruProofs.
 Local Open Scope Z_scope.
 
 (** For every old and new byte string, every partition setting, every scan block size and
@@ -69,8 +69,60 @@ Theorem apply_prefix_then_rest :
 Proof. exact apply_prefix_series. Qed.
 Print Assumptions apply_prefix_then_rest.
 
+(** The read cache is transparent: for every chunk size > 0, every number of entries > 0, every
+    file and every sequence of reads and seeks (valid or not), lrufile over simplelru returns,
+    operation by operation, what a plain in-memory reader returns (bytes, io.EOF exactly when
+    the read runs past the end, positions and errors of seeks); it never panics. *)
+Theorem lru_transparent :
+  forall (chunkSize : Z) (entries : nat) (file : list byte) (ops : list lop),
+    0 < chunkSize -> (0 < entries)%nat ->
+    exists loads, run_lru chunkSize entries file ops = Some (run_plain file ops, loads).
+Proof. exact lru_transparent_lemma. Qed.
+Print Assumptions lru_transparent.
+
+(** The same for ANY bounded cache that meets the contract (Get leaves the map alone, Add binds
+    the key, stays within the capacity, evicts at most one other entry and reports it, none
+    when the key was bound; the count is sound), whatever its eviction policy, and whatever
+    stale bytes the storage slots hold after Reset. *)
+Theorem lru_transparent_any_cache :
+  forall (cache : Type) (cget : cache -> Z -> option Z * cache) (cadd : cache -> Z -> Z -> cache * option (Z * Z))
+         (wf : cache -> Prop) (look : cache -> Z -> option Z) (card : cache -> nat) (cap : nat),
+    (forall c k, wf c ->
+        fst (cget c k) = look c k /\ wf (snd (cget c k)) /\
+        (forall k', look (snd (cget c k)) k' = look c k') /\ card (snd (cget c k)) = card c) ->
+    (forall c k v, wf c -> (card c <= cap)%nat ->
+        wf (fst (cadd c k v)) /\ (card (fst (cadd c k v)) <= cap)%nat /\ look (fst (cadd c k v)) k = Some v /\
+        (look c k <> None -> snd (cadd c k v) = None) /\
+        match snd (cadd c k v) with
+        | None => forall k', k' <> k -> look (fst (cadd c k v)) k' = look c k'
+        | Some (k0, v0) => k0 <> k /\ look c k0 = Some v0 /\ look (fst (cadd c k v)) k0 = None /\
+                           forall k', k' <> k -> k' <> k0 -> look (fst (cadd c k v)) k' = look c k'
+        end) ->
+    (forall c ks, wf c -> NoDup ks -> (forall k, In k ks -> look c k <> None) -> (length ks <= card c)%nat) ->
+    forall (chunkSize : Z) (file : list byte) (cempty : cache) (stale : list (list byte)) (ops : list lop),
+      0 < chunkSize ->
+      wf cempty -> (forall k, look cempty k = None) -> (card cempty <= cap)%nat ->
+      length stale = cap -> (forall slot, In slot stale -> len slot = chunkSize) ->
+      exists sf, lf_run cache cget cadd chunkSize file (lf_init cache cempty stale) ops = Some (run_plain file ops, sf).
+Proof. exact lru_transparent_abstract. Qed.
+Print Assumptions lru_transparent_any_cache.
+
+(** "internal error: could not find room in lrufile cache" (status 2 of a read) is unreachable *)
+Theorem lru_never_full :
+  forall (chunkSize : Z) (entries : nat) (file : list byte) (ops : list lop),
+    0 < chunkSize -> (0 < entries)%nat ->
+    exists rs loads, run_lru chunkSize entries file ops = Some (rs, loads) /\
+                     forall data st, In (RRead data st) rs -> st <> 2%N.
+Proof. exact lru_never_full_lemma. Qed.
+Print Assumptions lru_never_full.
+
 (** non-vacuity: the constant oracle is in range, and on a concrete pair the theorem's objects compute *)
 Example bsdiff_roundtrip_example :
   bsdiff_do 131072 const_search 3 [1;2;3;4;5;6]%N [9;1;2]%N = Ok ([([], [9]%N, 0, false); ([0]%N, [], -1, false); ([], [2]%N, 0, false)] ++ [ctrl_eof]) /\
   bspatch [1;2;3;4;5;6]%N [([], [9]%N, 0, false); ([0]%N, [], -1, false); ([], [2]%N, 0, false); ctrl_eof] 3 = Some [9;1;2]%N.
 Proof. split; vm_compute; reflexivity. Qed.
+
+Example lru_example :
+  run_lru 2 1 [1;2;3;4;5]%N [ORead 3; OSeek (-1) 2; ORead 4; OSeek 9 0; ORead 1]
+  = Some ([RRead [1;2;3]%N 0; RSeek 4 0; RRead [5]%N 1; RSeek 0 2; RRead [1]%N 0], [0; 2; 4; 0]).
+Proof. vm_compute. reflexivity. Qed.
